@@ -2,8 +2,8 @@
  * Unless explicitly stated otherwise all files in this repository are licensed under the Apache-2.0 License.
  * This product includes software developed at Datadog (https://www.datadoghq.com/). Copyright 2022 Datadog, Inc.
  **/
-use swc_common::{util::take::Take, Span};
-use swc_ecma_ast::ExprOrSpread;
+use swc_common::{util::take::Take, Span, DUMMY_SP};
+use swc_ecma_ast::{ExprOrSpread, Lit, Number, UnaryExpr, UnaryOp};
 use swc_ecma_visit::swc_ecma_ast::{BinaryOp, Expr};
 
 use crate::visitor::ident_provider::{IdentKind, IdentProvider};
@@ -101,6 +101,13 @@ pub trait OperandHandler {
                             ident_provider,
                             ExpandArrays::No,
                         )
+                    } else {
+                        // a hole of the arguments array is the argument `undefined`
+                        arguments.push(ExprOrSpread::from(Expr::Unary(UnaryExpr {
+                            span: DUMMY_SP,
+                            op: UnaryOp::Void,
+                            arg: Box::new(Expr::Lit(Lit::Num(Number::from(0.0)))),
+                        })));
                     }
                 })
             }
